@@ -58,6 +58,13 @@ class Coder:
         return '\n'.join(lines)
 
     def guard(self, ch, t):
+        g = self._guard(ch, t)
+        if t.get('raising_guard'):
+            # a guard that cannot be evaluated (C07: the kind of error may not depend on the declaration order)
+            g = '(%s) and (1 // 0 > 0)' % g if g else '1 // 0 > 0'
+        return g
+
+    def _guard(self, ch, t):
         if t.get('gkey'):
             return 'H(%r)' % t['gkey']
         if t.get('tguard') and t['tguard'].get('plain'):
